@@ -23,9 +23,11 @@ VERIF = Path(__file__).resolve().parent.parent
 REPO = Path(os.environ.get('VERIF_REPO', '/repo'))
 REPO_SRC = REPO / 'src'
 COQ_DIR = VERIF / 'coq'
-WORK = VERIF / '.work'
-EVIDENCE_DIR = VERIF / 'evidence'
-REPLAY_DIR = VERIF / 'replays'
+# VERIF_SCRATCH=<name>: a run against a seeded change keeps its cases, evidence and replays apart from the real ones
+_SCRATCH = os.environ.get('VERIF_SCRATCH')
+WORK = VERIF / '.work' / _SCRATCH if _SCRATCH else VERIF / '.work'
+EVIDENCE_DIR = WORK / 'evidence' if _SCRATCH else VERIF / 'evidence'
+REPLAY_DIR = WORK / 'replays' if _SCRATCH else VERIF / 'replays'
 PY = '/venv/bin/python'
 GUARD = 'BESPOKEASM_VERIF'
 
@@ -378,7 +380,7 @@ def load_known_findings(pid: str) -> list[dict]:
 
 def write_evidence(pid: str, tier: str, seed: int, coverage: dict, wall: float, violations: int,
                    assumptions: list[str] | None = None):
-    EVIDENCE_DIR.mkdir(exist_ok=True)
+    EVIDENCE_DIR.mkdir(parents=True, exist_ok=True)
     ev = {
         'property_id': pid,
         'tier': tier,
@@ -393,7 +395,7 @@ def write_evidence(pid: str, tier: str, seed: int, coverage: dict, wall: float, 
 
 
 def write_replay(pid: str, seed: int, k: int, payload: dict) -> Path:
-    REPLAY_DIR.mkdir(exist_ok=True)
+    REPLAY_DIR.mkdir(parents=True, exist_ok=True)
     p = REPLAY_DIR / f'{pid}-{seed}-{k}.json'
     p.write_text(json.dumps(payload, indent=1, default=str) + '\n')
     return p
